@@ -35,7 +35,7 @@ Proof.
     + apply eval_caseS_ext; auto.
   - destruct (slookup f ft) as [[ps forms]|]; auto.
     rewrite (eval_argsS_ext _ _ IH). destruct (eval_argsS (evalS n ft) en o args) as [[vs|r] o1]; auto.
-    destruct (Nat.ltb _ _); auto. apply eval_bodyS_ext; auto.
+    destruct (arity_err _ _); auto. apply eval_bodyS_ext; auto.
 Qed.
 
 (* ---- where evalS is binding the policy is irrelevant ---------------------------------------------------- *)
@@ -128,7 +128,7 @@ Proof.
     + destruct (eval_argsS (evalS n ft) en o args) as [a o1] eqn:EA.
       assert (K : okA a) by (destruct a as [vs|r0]; simpl; auto; inversion E; subst; exact C).
       rewrite (eval_argsS_stable _ _ IH _ _ _ _ _ EA K). destruct a as [vs|r0]; auto.
-      destruct (Nat.ltb _ _); auto. eapply eval_bodyS_stable; eauto.
+      destruct (arity_err _ _); auto. eapply eval_bodyS_stable; eauto.
     + inversion E; subst. discriminate.
 Qed.
 
@@ -373,7 +373,7 @@ Section Exact.
              ++ destruct A as [-> O1]. unfold call_lambda.
                 assert (Ha1 : nth_error (heap st1) a = Some l) by (destruct T1 as [-> _]; exact Ha).
                 rewrite Ha1, PL.
-                destruct (Nat.ltb (List.length (l_params l)) (List.length vs)).
+                destruct (arity_err (List.length (l_params l)) (List.length vs)).
                 ** inversion E; subst. eexists _, _. split; [reflexivity|]. split; auto.
                 ** rewrite <- O1 in E.
                    apply (eval_body_ex n IH _ st1 _ _ _ _ (I1 I) (same_tabs_rel _ _ _ T1 R) (same_tabs_pol _ _ _ T1 P) E).
